@@ -108,6 +108,9 @@ class Session:
         self.fails = list(fails)
         self.trace = []
         self.handed = False
+        self.mark = 0
+        self.cause = None
+        self.route_kind = route[0]
         sess = self
 
         class MW:
@@ -173,6 +176,12 @@ class Session:
         return await self.gate()
 
     async def script(self, ws, sc):
+        try:
+            await self._script(ws, sc)
+        finally:
+            self.mark = len(self.trace)
+
+    async def _script(self, ws, sc):
         for op, catch in sc:
             self.pubs.append(0 if ws.unaccepted else (2 if ws.closed else 1))
             if ws.ready != (not ws.unaccepted and not ws.closed):
@@ -183,6 +192,7 @@ class Session:
             except Exception as ex:
                 self.results.append([1, exc_code(self.falcon, ex)])
                 if not catch:
+                    self.cause = exc_code(self.falcon, ex)
                     raise
 
     # ---- the ASGI server
@@ -282,7 +292,14 @@ class Session:
                 else:
                     ending = [0]
             left = [t for t in loop.tasks if not t.done() and t is not task]
-            return {'results': self.results, 'ending': ending, 'trace': self.trace,
+            if self.cause is None:
+                cause = [self.route_kind, 0]
+            elif self.cause[0] in (8, 9):
+                cause = [3, self.cause[1]]
+            else:
+                cause = [4, 0]
+            return {'cause': cause, 'mark': self.mark,
+                    'results': self.results, 'ending': ending, 'trace': self.trace,
                     'handed': int(self.handed), 'pubs': self.pubs,
                     'pending_tasks': len(left) if ending != [2] else 0,
                     'loop_errors': [repr(e.get('exception') or e.get('message')) for e in loop.errors]}
@@ -423,6 +440,14 @@ def judge(ctx, model, cases, reals, tag):
                     po.append([4, op[0] - 5, client[k], res])
                     idx_p.append((i, j))
                 k += 1
+    wo, idx_w = [], []
+    for i, (case, real) in enumerate(zip(cases, reals)):
+        (ver, cap, err), connect_ok, mw, route, client, fails = case
+        if connect_ok and real['ending'] != [2]:
+            h, r = VERSIONS[ver]
+            wo.append([5, [h, r, cap, err], real['cause'][0], real['cause'][1], real['trace'][real['mark']:]])
+            idx_w.append(i)
+    wres = model.run_many(wo) if wo else []
     souts = model.run_many(so)
     mres = model.run_many(mo) if mo else []
     pres = model.run_many(po) if po else []
@@ -432,6 +457,11 @@ def judge(ctx, model, cases, reals, tag):
             bad.setdefault(i, []).append(('session', 'illegal ASGI session (send-side monitor)'))
         if o[1] != 1:
             bad.setdefault(i, []).append(('features', 'accept headers / close reason sent to a server that does not support them'))
+    for i, o in zip(idx_w, wres):
+        if o != 1:
+            bad.setdefault(i, []).append(('close-code', 'the close code sent by the application wrapper is not the one '
+                                          'documented for the way the responder ended (1000 / 3404 / 3405 / 3000+status / '
+                                          'error_close_code or fallback)'))
     for (i, j), o in zip(idx_m, mres):
         if o != 1:
             bad.setdefault(i, []).append(('misuse', j))
@@ -440,6 +470,7 @@ def judge(ctx, model, cases, reals, tag):
             bad.setdefault(i, []).append(('payload', j))
     n_found = 0
     corr = []
+    model_results = [[r for r in m[0] if r != [2]] for m in mouts]
     for i, (case, real, m) in enumerate(zip(cases, reals, mouts)):
         (ver, cap, err), connect_ok, mw, route, client, fails = case
         ops = [o for o, _ in mw] + ([o for o, _ in route[1]] if route[0] == 0 else [])
@@ -451,7 +482,7 @@ def judge(ctx, model, cases, reals, tag):
         ctx.count('ending=%s' % real['ending'][0])
         detail = {'case': [list(case[0])] + list(case[1:]),
                   'ops': [OPN[o[0]] for o in ops],
-                  'impl': {k: real[k] for k in ('results', 'ending', 'trace', 'handed', 'pubs')},
+                  'impl': {k: real[k] for k in ('results', 'ending', 'trace', 'handed', 'pubs', 'cause', 'mark')},
                   'impl_readable': [res_str(r) for r in real['results']]}
         weird = [r for r in real['results'] if r[1] and r[1][0] == 99] + [t for t in real['trace'] if t[0][0] == 99]
         if weird or real['loop_errors'] or real['pending_tasks'] or 98 in real['pubs']:
@@ -466,11 +497,14 @@ def judge(ctx, model, cases, reals, tag):
                 op = ops[j]
                 res = real['results'][j]
                 rc = EXC.get(res[1][0], '?') if res[0] == 1 else 'returned'
+                mr = model_results[i][j] if j < len(model_results[i]) else None
+                mrc = 'none' if mr is None else (EXC.get(mr[1][0], '?') if mr[0] == 1 else 'returned')
                 n_found += 1
                 ctx.violation('c17-misuse-undocumented-error',
                               dict(detail, at_op=j, op=OPN[op[0]], op_wire=op,
                                    public_state=['unaccepted', 'ready', 'closed'][real['pubs'][j]],
-                                   result_class=rc, op_group='receive' if op[0] in (5, 6, 7) else OPN[op[0]]),
+                                   result_class=rc, model_predicts=mrc,
+                                   op_group='receive' if op[0] in (5, 6, 7) else OPN[op[0]]),
                               key='misuse-%s-%s-%s' % (OPN[op[0]], real['pubs'][j], rc))
             elif what[0] == 'payload':
                 n_found += 1
